@@ -39,6 +39,13 @@ func init() {
 		if r.Quick() {
 			engine.RunSeq(r, engine.SeqSpec{Name: "c01-wide", WorkerArgs: []string{"worker", "store"}, Alphabet: vOpsJSON(wide), Params: params, Depth: 2, Budget: 60 * time.Second})
 			engine.RunSeq(r, engine.SeqSpec{Name: "c01-narrow", WorkerArgs: []string{"worker", "store"}, Alphabet: vOpsJSON(narrow), Params: params, Depth: 3, Budget: 60 * time.Second})
+			// writers that overlap in time: whatever the order, listing, scoped and unscoped lookup agree on one last version
+			for _, sc := range c05Scenarios() {
+				if sc.Name == "S1-two-batches-same-ids" || sc.Name == "S15-txn-waiting-for-a-lock-vs-batch-on-the-same-entity" {
+					sc.Name = "C01-" + sc.Name
+					engine.RunSched(r, engine.SchedSpec{Name: sc.Name, WorkerArgs: []string{"worker", "sched-store"}, Scenario: sc, Bound: 2, Horizon: 1500, BudgetS: 60})
+				}
+			}
 			// the same observations through GET /datasets/{ds}/entities (paged) and POST /query {entityId}
 			engine.RunSeq(r, engine.SeqSpec{Name: "c01-http", WorkerArgs: []string{"worker", "http-store"}, Alphabet: vOpsJSON(narrow), Params: params, Depth: 2, Budget: 60 * time.Second})
 		} else {
@@ -139,6 +146,10 @@ func init() {
 			}
 			engine.RunSeq(r, engine.SeqSpec{Name: "c06-narrow", WorkerArgs: []string{"worker", "store"}, Alphabet: vOpsJSON(small), Params: params, Depth: 4, Budget: 60 * time.Second})
 		}
+		// Not explored: instants taken by a reader WHILE a write is in flight. A write is stamped (txnTime) before it
+		// commits, so an as-of-t answer taken between stamp and commit changes when the commit lands - on the unchanged
+		// tree too (a trial scenario showed it for batches and transactions alike). The property quantifies over
+		// histories, where every write has committed before the next instant is taken; see DESIGN.md section 9.
 		// reference-shaped histories of one entity held by two datasets: interleaved commits, removed and re-asserted
 		// references (paged point-in-time queries have to replay newer transactions of the other dataset)
 		var refs []VOp
@@ -147,6 +158,10 @@ func init() {
 		}
 		for _, c := range poolIdx("r23", "r3", "e") {
 			refs = append(refs, VOp{K: "batch", DS: "B", Ents: []VEnt{{"e1", c}}})
+		}
+		// more than one entity referring to the same target (e1, e2 itself and e3 all point at e2)
+		for _, id := range []string{"e2", "e3"} {
+			refs = append(refs, VOp{K: "batch", DS: "A", Ents: []VEnt{{id, poolIdx("r2")[0]}}})
 		}
 		rdepth := 3
 		if !r.Quick() {
